@@ -158,6 +158,19 @@ func (x *Exec) staticCall(st *State, fr *Frame, ci *ssa.Call, callee *ssa.Functi
 	name := callee.String()
 	tc := x.contractFor(fr.fn)
 	rel := relName(callee)
+	if tc != nil && tc.callMods != nil {
+		cm := tc.callMods[rel]
+		if cm == nil {
+			cm = tc.callMods[name]
+		}
+		if cm != nil {
+			if c := x.contractFor(callee); c == nil || c.hasMod || c.inline {
+				x.callModCall(st, fr, ci, name, cm)
+				return true
+			}
+			// the callee has a contract without frame: the caller's callmod supplies the frame (modularCall)
+		}
+	}
 	if tc != nil && (contains(tc.opaque, rel) || contains(tc.opaque, name)) {
 		x.opaqueCall(st, fr, ci, name)
 		return true
@@ -299,6 +312,55 @@ func shortFn(name string) string {
 	return name
 }
 
+// callModCall: uninterpreted callee whose frame the caller's contract states (an assumption, listed in the
+// evidence): results unconstrained, exactly the designated locations havocked.
+func (x *Exec) callModCall(st *State, fr *Frame, ci *ssa.Call, name string, cm *Clause) {
+	for _, ml := range x.callModLocs(st, fr, ci, cm) {
+		x.havocMod(st, ml, shortFn(name))
+	}
+	r := freshSV(ci.Type(), "r_"+shortFn(name))
+	x.wf(st, r)
+	fr.vals[ci] = x.splitTuple(ci.Type(), r)
+}
+
+func (x *Exec) callModFor(fr *Frame, callee *ssa.Function) *Clause {
+	tc := x.contractFor(fr.fn)
+	if tc == nil || tc.callMods == nil || callee == nil {
+		return nil
+	}
+	if cm := tc.callMods[relName(callee)]; cm != nil {
+		return cm
+	}
+	return tc.callMods[callee.String()]
+}
+
+// callModLocs evaluates the designators of a callmod clause in the caller's state at the call.
+func (x *Exec) callModLocs(st *State, fr *Frame, ci *ssa.Call, cm *Clause) []modLoc {
+	x.havocked["assumed frame ("+cm.text+") in "+relName(fr.fn)] = true
+	env := &Env{x: x, st: st, vars: map[string]SV{}, pkg: fr.fn.Pkg.Pkg}
+	if fr.fn == x.target {
+		for k, v := range st.lets {
+			env.vars[k] = v
+		}
+	}
+	env.lookup = x.localResolver(st, fr, ci.Block())
+	var locs []modLoc
+	for _, e := range cm.exprs {
+		func() {
+			defer func() {
+				if r := recover(); r != nil {
+					if ee, ok := r.(evalErr); ok {
+						panic(abortErr{fmt.Sprintf("%s:%d: callmod %s: %s", cm.file, cm.line, cm.text, ee.msg)})
+					}
+					panic(r)
+				}
+			}()
+			locs = append(locs, x.modLocs(env, e)...)
+		}()
+	}
+	return locs
+}
+
 // opaqueCall: unknown callee: results unconstrained, whole heap havocked.
 func (x *Exec) opaqueCall(st *State, fr *Frame, ci *ssa.Call, name string) {
 	x.havocked["havoc-all: "+name] = true
@@ -395,7 +457,11 @@ func (x *Exec) modularCall(st *State, fr *Frame, ci *ssa.Call, c *FuncContract, 
 	}
 	pre := st.clone()
 	// havoc
-	if !c.hasMod {
+	if cm := x.callModFor(fr, callee); !c.hasMod && cm != nil {
+		for _, ml := range x.callModLocs(st, fr, ci, cm) {
+			x.havocMod(st, ml, short)
+		}
+	} else if !c.hasMod {
 		st.havocAll()
 	} else if !c.pure {
 		penv := &Env{x: x, st: pre, vars: vars, pkg: pkg}
